@@ -46,6 +46,13 @@ class _Return(Exception):
         self.v = v
 
 
+class _Raised(Exception):
+    """a Python exception the interpreted code would raise (ValueError from datetime(...)), catchable by an interpreted try"""
+
+    def __init__(self, exc):
+        self.exc = exc
+
+
 _STR_METHODS = {'strip', 'lower', 'upper', 'endswith', 'startswith', 'replace', 'lstrip', 'rstrip', 'split', 'find',
                 'isnumeric', 'isdigit', 'casefold', 'title', '__contains__'}
 _DT_METHODS = {'isoweekday', 'weekday', 'date', 'isocalendar', 'replace'}
@@ -80,6 +87,10 @@ class MiniEval:
             self.block(fn.body, env)
         except _Return as r:
             return r.v
+        except _Raised as r:
+            if self.depth == 0:
+                raise Undetermined('interpreted code raises %s' % type(r.exc).__name__)
+            raise
         return None
 
     def block(self, stmts, env):
@@ -109,6 +120,25 @@ class MiniEval:
                 self.expr(st.value, env)
             elif isinstance(st, ast.Pass):
                 continue
+            elif isinstance(st, ast.Try) and not st.finalbody:
+                try:
+                    self.block(st.body, env)
+                except _Raised as r:
+                    for h in st.handlers:
+                        names = []
+                        if h.type is None:
+                            names = [type(r.exc).__name__]
+                        elif isinstance(h.type, ast.Name):
+                            names = [h.type.id]
+                        elif isinstance(h.type, ast.Tuple):
+                            names = [x.id for x in h.type.elts if isinstance(x, ast.Name)]
+                        if type(r.exc).__name__ in names or 'Exception' in names:
+                            self.block(h.body, env)
+                            break
+                    else:
+                        raise
+                else:
+                    self.block(st.orelse, env)
             else:
                 raise Undetermined('statement %s' % type(st).__name__)
 
@@ -118,6 +148,8 @@ class MiniEval:
         elif isinstance(t, (ast.Tuple, ast.List)) and isinstance(v, (tuple, list)) and len(v) == len(t.elts):
             for a, b in zip(t.elts, v):
                 self.assign(a, b, env)
+        elif isinstance(t, ast.Attribute) and isinstance(t.value, ast.Name):
+            env['%s.%s' % (t.value.id, t.attr)] = v          # attribute store on a local object: kept under 'obj.attr'
         else:
             raise Undetermined('assignment target %s' % ast.unparse(t))
 
@@ -231,6 +263,8 @@ class MiniEval:
         if isinstance(e, ast.Call):
             return self.callexpr(e, env)
         if isinstance(e, ast.Attribute):
+            if isinstance(e.value, ast.Name) and '%s.%s' % (e.value.id, e.attr) in env:
+                return env['%s.%s' % (e.value.id, e.attr)]
             if self.resolver is not None:
                 try:
                     return self.resolver(e)
@@ -292,6 +326,11 @@ class MiniEval:
                     raise Undetermined('divmod failed: %s' % ex)
             if f.id in ('any', 'all') and len(args) == 1 and isinstance(args[0], list):
                 return (any if f.id == 'any' else all)(self.truth(x) for x in args[0])
+            if f.id == 'datetime':
+                try:
+                    return _dt.datetime(*args, **kwargs)
+                except (ValueError, TypeError, OverflowError) as ex:
+                    raise _Raised(ex)
             if f.id == 'timedelta':
                 return _dt.timedelta(*args, **kwargs)
             if f.id == 'datedelta':
@@ -1097,6 +1136,186 @@ def p(self, source, reference):
 '''
 
 
+def _path_to(stmts, target, trail=()):
+    """chain of (statement list, index) from `stmts` down to the If node `target` (through bodies and else-branches)"""
+    for i, st in enumerate(stmts):
+        if st is target:
+            return list(trail) + [(stmts, i)]
+        if isinstance(st, ast.If):
+            for sub in (st.body, st.orelse):
+                r = _path_to(sub, target, tuple(trail) + ((stmts, i),))
+                if r:
+                    return r
+        elif isinstance(st, (ast.For, ast.While, ast.With, ast.Try)):
+            for sub in (getattr(st, 'body', []), getattr(st, 'orelse', [])):
+                r = _path_to(sub, target, tuple(trail) + ((stmts, i),))
+                if r:
+                    return r
+    return None
+
+
+def oneword_case(idx, owner, fn, guard_name, ref, sw, swift_names, enum_vals, consts):
+    """interpret _parse_one_word_period along the path into the branch guarded by config.<guard_name>: plain
+    assignments that precede the branch on the way in, the branch itself, and the statements that follow it on the way
+    out (up to the first return).  -> env (attribute stores on the result kept under 'result.<attr>')"""
+    target = None
+    for n in ast.walk(fn):
+        if isinstance(n, ast.If) and any(isinstance(c, ast.Call) and _callee_name(c) == guard_name for c in ast.walk(n.test)):
+            target = n
+            break
+    if target is None:
+        raise AnalysisError('%s: no branch guarded by config.%s' % (fn.name, guard_name))
+    path = _path_to(fn.body, target)
+    if not path:
+        raise AnalysisError('%s: branch guarded by config.%s not reachable through if/else nesting' % (fn.name, guard_name))
+
+    def res(node):
+        txt = ast.unparse(node)
+        if isinstance(node, ast.Attribute) and isinstance(node.value, ast.Name):
+            if node.value.id == 'DayOfWeek' and node.attr in enum_vals:
+                return enum_vals[node.attr]
+            if node.value.id == 'Constants' and node.attr in consts:
+                return consts[node.attr]
+        if txt == 'DateUtils.min_value':
+            return _dt.datetime(1, 1, 1)
+        if txt == 'self._inclusive_end_period':
+            return False                 # the [start, end) convention the property states
+        raise Undetermined('attribute %s' % txt[:40])
+
+    ev = MiniEval(idx, owner, res)
+    env = {'reference': ref, 'early_prefix': False, 'mid_prefix': False, 'late_prefix': False, 'result': '<result>'}
+    # way in: simple assignments only (conditions on the matched text are not interpreted)
+    for stmts, i in path:
+        for st in stmts[:i]:
+            if isinstance(st, (ast.Assign, ast.AnnAssign)):
+                try:
+                    ev.block([st], env)
+                except (Undetermined, _Raised):
+                    continue
+    env.update({'early_prefix': False, 'mid_prefix': False, 'late_prefix': False})
+    for nm in swift_names:
+        env[nm] = sw
+    try:
+        ev.block(target.body, env)
+        # way out: what follows the if/elif chain at every enclosing level
+        for stmts, i in reversed(path):
+            ev.block(stmts[i + 1:], env)
+    except _Return:
+        pass
+    except _Raised as r:
+        raise AnalysisError('%s[%s]: interpreted branch raises %s' % (fn.name, guard_name, type(r.exc).__name__))
+    except Undetermined as e:
+        raise AnalysisError('%s[%s]: branch cannot be interpreted: %s' % (fn.name, guard_name, e))
+    return env
+
+
+def _month_add(y, m, k):
+    t = y * 12 + (m - 1) + k
+    return t // 12, t % 12 + 1
+
+
+def oneword_expected(guard, ref, sw):
+    """(timex or None when not compared here, start, end) of this/next/last <unit> as [start, end)"""
+    if guard == 'is_month_only':
+        y, m = _month_add(ref.year, ref.month, sw)
+        y2, m2 = _month_add(y, m, 1)
+        return '%04d-%02d' % (y, m), _dt.datetime(y, m, 1), _dt.datetime(y2, m2, 1)
+    if guard == 'is_year_only':
+        y = ref.year + sw
+        return '%04d' % y, _dt.datetime(y, 1, 1), _dt.datetime(y + 1, 1, 1)
+    monday = _dt.datetime(ref.year, ref.month, ref.day) - _dt.timedelta(days=ref.isoweekday() - 1) + _dt.timedelta(days=7 * sw)
+    if guard == 'is_week_only':
+        return None, monday, monday + _dt.timedelta(days=7)
+    if guard == 'is_weekend':
+        return None, monday + _dt.timedelta(days=5), monday + _dt.timedelta(days=7)
+    raise AnalysisError('no reference semantics for %s' % guard)
+
+
+def oneword_refs():
+    import calendar
+    out = []
+    for y in (2019, 2020):
+        for m in range(1, 13):
+            for d in (1, 15, calendar.monthrange(y, m)[1]):
+                out.append(_dt.datetime(y, m, d, 9, 30, 15))
+    return out
+
+
+def now_sites(idx):
+    """[(module, class, function, If node)] : branches taken when config.now_regex matched that set a future_value"""
+    out = []
+    for mod, cls, fn in idx.functions():
+        if not mod.name.startswith(DT) or cls is None:
+            continue
+        locals_ = {}
+        for n in ast.walk(fn):
+            if isinstance(n, ast.Assign) and len(n.targets) == 1 and isinstance(n.targets[0], ast.Name):
+                locals_.setdefault(n.targets[0].id, []).append(n.value)
+        for n in ast.walk(fn):
+            if not isinstance(n, ast.If):
+                continue
+            names = {x.id for x in ast.walk(n.test) if isinstance(x, ast.Name)}
+            from_now = any(isinstance(a, ast.Attribute) and a.attr == 'now_regex' for nm in names for v in locals_.get(nm, [])
+                           for a in ast.walk(v)) or any(isinstance(a, ast.Attribute) and a.attr == 'now_regex' for a in ast.walk(n.test))
+            sets_value = any(isinstance(st, ast.Assign) and isinstance(st.targets[0], ast.Attribute) and st.targets[0].attr == 'future_value'
+                             for st in n.body)
+            if from_now and sets_value:
+                out.append((mod, cls, fn, n))
+    return out
+
+
+def now_values(idx, cls, branch, ref):
+    """interpret a now-branch: {'future_value': v, 'past_value': v, 'timex': t or None}"""
+    def res(node):
+        if ast.unparse(node) == 'DateUtils.min_value':
+            return _dt.datetime(1, 1, 1)
+        raise Undetermined('attribute %s' % ast.unparse(node)[:40])
+    ev = MiniEval(idx, cls, res)
+    env = {'reference': ref, 'source': 'now', 'result': '<result>'}
+    for st in branch.body:
+        try:
+            ev.block([st], env)
+        except (Undetermined, _Raised):
+            continue          # match bookkeeping (timex object of the configuration, spans) does not feed the value
+        except _Return:
+            break
+    out = {}
+    for k, v in env.items():
+        if '.' in k and k.split('.', 1)[1] in ('future_value', 'past_value', 'timex'):
+            out[k.split('.', 1)[1]] = v
+    return out
+
+
+_ONEWORD_CONTROL = '''
+def p(self, source, reference):
+    year, month = reference.year, reference.month
+    future_year = past_year = year
+    if match.success:
+        swift = self.config.get_swift_day_or_month(trimmed_source)
+        if self.config.is_month_only(trimmed_source):
+            temp_date = reference + datedelta(months=swift)
+            month, year = temp_date.month, temp_date.year
+            result.timex = f'{year:04d}-{month:02d}'
+    future_start = DateUtils.safe_create_from_min_value(future_year, month, 1)
+    future_end = DateUtils.safe_create_from_min_value(future_year, month, 1) + datedelta(months=1)
+    result.future_value = [future_start, future_end]
+    result.past_value = [future_start, future_end]
+    return result
+'''
+
+
+_NOW_CONTROL = '''
+class P:
+    def parse_basic_regex(self, source, reference):
+        match = regex.search(self.config.now_regex, source)
+        if match and match.start() == 0:
+            now = datetime(reference.year, reference.month, reference.day, reference.hour, reference.minute)
+            result.future_value = now
+            result.past_value = now
+        return result
+'''
+
+
 REF_PERIOD = {'is_week_only': ('days', 7), 'is_weekend': ('days', 7), 'is_month_only': ('months', 1), 'is_year_only': ('years', 1)}
 
 
@@ -1229,6 +1448,10 @@ def run(chk):
              floor=1, control=True)
     chk.rule('C08.quarter', "quarter clause: 'last/this/next quarter' is calendar arithmetic on quarters (q0 = ceil(month/3) + swift; "
              "year += (q0-1)//4; quarter = (q0-1)%4 + 1), tabulated for month 1..12 x swift -1/0/+1", floor=3, control=True)
+    chk.rule('C08.oneword', "this/next/last week|month|year (and weekend): the [start, end) handed to the result is the shifted unit of the "
+             "shifted year and denotes the same period as the TIMEX (tabulated over 72 reference dates x swift -1/0/+1)", floor=6, control=True)
+    chk.rule('C08.now', "'now' resolves to the reference itself: the value is the reference object or a datetime built from all of its "
+             "fields down to the second (date granularity only where the branch also emits a date TIMEX)", floor=2, control=True)
     chk.rule('C08.wiring', 'next/last/this (and ago/later) slots are wired to regexes of that kind in every culture', floor=50)
     chk.rule('C08.specialday', 'today/tomorrow/yesterday lexicon evaluates to 0/+1/-1 (+-2) through get_swift_day', floor=30, control=True)
     chk.rule('C08.relperiod', 'this/next/last week|month|year phrases evaluate to the right unit predicate and swift in every culture',
@@ -1441,6 +1664,79 @@ def run(chk):
     ctl = ast.parse(_WEEKTIMEX_CONTROL).body[0]
     _, cbad, _ = week_timex_cases(idx, bpp, ctl, 'is_week_only', enum, consts, {'swift'}, 1)
     chk.control('C08.weektimex', bool(cbad))
+
+    # ---- C08.oneword
+    refs = oneword_refs()
+    for guard in ('is_month_only', 'is_year_only', 'is_week_only', 'is_weekend'):
+        bad_range, bad_timex, n_cases = [], [], 0
+        for ref in refs:
+            for sw in (-1, 0, 1):
+                env = oneword_case(idx, bpp, pf, guard, ref, sw, swifts, enum, consts)
+                wt, ws, we = oneword_expected(guard, ref, sw)
+                n_cases += 1
+                fv, pv, tx = env.get('result.future_value'), env.get('result.past_value'), env.get('result.timex')
+                if not (isinstance(fv, list) and isinstance(pv, list) and len(fv) == 2 and len(pv) == 2):
+                    raise AnalysisError('_parse_one_word_period[%s]: no [start, end] pair reaches result.future_value/past_value' % guard)
+                for which, pair in (('future', fv), ('past', pv)):
+                    got = tuple(x.replace(hour=0, minute=0, second=0, microsecond=0) if isinstance(x, _dt.datetime) else x for x in pair)
+                    if got != (ws, we):
+                        bad_range.append((ref, sw, which, got, (ws, we), tx))
+                if wt is not None and tx != wt:
+                    bad_timex.append((ref, sw, tx, wt))
+        cons = 'BaseDatePeriodParser._parse_one_word_period[%s]' % guard
+        if bad_range:
+            ref, sw, which, got, want, tx = bad_range[0]
+            chk.bad('C08.oneword', bpp.mod.path, cons + '#range',
+                    '%d of %d interpreted cases differ; first: reference %s swift %+d -> [%s, %s), expected [%s, %s)'
+                    % (len({(b[0], b[1]) for b in bad_range}), n_cases, ref.date(), sw, getattr(got[0], 'date', lambda: got[0])(),
+                       getattr(got[1], 'date', lambda: got[1])(), want[0].date(), want[1].date()),
+                    '%s %s: at reference %s (swift %+d) the %s value is [%s, %s) while the TIMEX is %s; calendar arithmetic gives [%s, %s) '
+                    '(%d of %d interpreted cases differ)'
+                    % ({-1: 'last', 0: 'this', 1: 'next'}[sw], guard[3:-5] if guard != 'is_weekend' else 'weekend', ref.date(), sw, which,
+                       got[0], got[1], tx, want[0].date(), want[1].date(), len({(b[0], b[1]) for b in bad_range}), n_cases), pf.lineno)
+        else:
+            chk.ok('C08.oneword', bpp.mod.path, cons + '#range', '%d interpreted cases: [start, end) is the shifted %s' % (n_cases, guard[3:-5]), pf.lineno)
+        if guard in ('is_month_only', 'is_year_only'):
+            if bad_timex:
+                ref, sw, tx, wt = bad_timex[0]
+                chk.bad('C08.oneword', bpp.mod.path, cons + '#timex', '%d of %d differ; first: reference %s swift %+d -> %s, expected %s'
+                        % (len(bad_timex), n_cases, ref.date(), sw, tx, wt),
+                        '%s: at reference %s (swift %+d) the TIMEX is %r, calendar arithmetic gives %r' % (cons, ref.date(), sw, tx, wt), pf.lineno)
+            else:
+                chk.ok('C08.oneword', bpp.mod.path, cons + '#timex', '%d interpreted cases: TIMEX names the same period' % n_cases, pf.lineno)
+    # positive control: an embedded month branch that forgets to re-bind future_year/past_year to the shifted year
+    ctl_fn = ast.parse(_ONEWORD_CONTROL).body[0]
+    cenv = oneword_case(idx, bpp, ctl_fn, 'is_month_only', _dt.datetime(2019, 12, 31, 9, 0), 1, {'swift'}, enum, consts)
+    cfv = cenv.get('result.future_value')
+    chk.control('C08.oneword', isinstance(cfv, list) and cfv[0] != _dt.datetime(2020, 1, 1))
+
+    # ---- C08.now
+    sites = now_sites(idx)
+    if not sites:
+        raise AnalysisError("no 'now' branch (config.now_regex + future_value) found in the date-time parsers")
+    R = _dt.datetime(2019, 12, 31, 23, 59, 58, 123456)
+    for mod, cls, fn, br in sites:
+        chk.consulted(mod.path)
+        vals = now_values(idx, cls, br, R)
+        cons = '%s.%s[now]' % (cls.name, fn.name)
+        if 'future_value' not in vals or 'past_value' not in vals:
+            raise AnalysisError('%s: the value of the now-branch cannot be interpreted' % cons)
+        tx = vals.get('timex')
+        date_only = isinstance(tx, str) and len(tx) == 10 and tx[4] == '-' and tx[7] == '-'
+        want_v = R.replace(hour=0, minute=0, second=0, microsecond=0) if date_only else R.replace(microsecond=0)
+        okv = all(isinstance(vals[k], _dt.datetime) and vals[k].replace(microsecond=0) == want_v for k in ('future_value', 'past_value'))
+        if date_only:
+            okv = okv and tx == '%04d-%02d-%02d' % (R.year, R.month, R.day)
+        chk.judge(okv, 'C08.now', mod.path, cons, 'reference %s -> value %s%s' % (R.replace(microsecond=0), vals['future_value'],
+                                                                                   ' (date TIMEX %s)' % tx if date_only else ''),
+                  "%s: with reference %s 'now' resolves to %s / %s, expected %s%s"
+                  % (cons, R.replace(microsecond=0), vals['future_value'], vals['past_value'], want_v,
+                     ' (the branch emits the date TIMEX %s)' % tx if date_only else ' - every field of the reference down to the second'),
+                  br.lineno)
+    cctl = ast.parse(_NOW_CONTROL).body[0]
+    cbr = [n for n in ast.walk(cctl) if isinstance(n, ast.If)][0]
+    cv = now_values(idx, bpp, cbr, R)
+    chk.control('C08.now', cv.get('future_value') != R.replace(microsecond=0))
 
     # ---- C08.quarter
     qf = bpp.methods.get('__parse_quarter') or bpp.methods.get('_parse_quarter')
